@@ -25,6 +25,7 @@ CfgOf(r) == [agents |-> ToSet(r.agents), imported |-> ToSet(r.imported), targets
              epochs |-> ToSet(r.epochs), rows |-> Pairs(r.rows), obs |-> Triples(r.obs), nsteps |-> r.nsteps,
              dup |-> Triples(r.dup), schema |-> r.schema, near |-> Triples(r.near),
              born |-> [a \in ToSet(r.agents) |-> LET i == CHOOSE j \in DOMAIN r.born : r.born[j][1] = a IN r.born[i][2]],
+             gone |-> [a \in ToSet(r.agents) |-> LET i == CHOOSE j \in DOMAIN r.gone : r.gone[j][1] = a IN r.gone[i][2]],
              engines |-> {r.engines[i][1] : i \in DOMAIN r.engines},
              sensorOf |-> [s \in ToSet(r.agents) \ ToSet(r.targets) |->
                              LET i == CHOOSE j \in DOMAIN r.engines : s \in ToSet(r.engines[j][2]) IN r.engines[i][1]],
@@ -58,10 +59,14 @@ TLoadObs == IsEvent("LoadObs") /\ UpdateFilters /\ ReachedMatch(reached, Rec.rea
 \* an engine whose load was not logged (an implementation that loads elsewhere) still takes its step of the specification
 TSilentLoad == l <= Len(Tr) /\ Rec.ev = "LoadObs" /\ LoadObsSome /\ UNCHANGED <<tid, l>>
 TEndStep == IsEvent("EndStep") /\ EndStep
+\* the truth rows of the run's OUTPUT database, read with plain SQL after the run: [[agent, epoch index of the row's Julian
+\* date, source, epoch of the state it carries], ...] for epoch indices >= 1 (the initial save is not part of a step)
+OutRows(seq) == {<<seq[i][1], seq[i][2], <<seq[i][3], seq[i][4]>>>> : i \in DOMAIN seq}
+TOutput == IsEvent("Output") /\ OutRows(Rec.rows) = out /\ Len(Rec.rows) = Cardinality(out) /\ UNCHANGED vars
 \* end of the run: the importer database file is byte-identical to what it was before
 TEndRun == IsEvent("EndRun") /\ Rec.unchanged /\ Rec.schema_unchanged /\ UNCHANGED vars
 
-TraceNext == TOpen \/ TBeginStep \/ TImportOk \/ TSkipImport \/ TImportMissing \/ TEngineLoad \/ TSilentLoad \/ TLoadObs \/ TEndStep \/ TEndRun
+TraceNext == TOutput \/ TOpen \/ TBeginStep \/ TImportOk \/ TSkipImport \/ TImportMissing \/ TEngineLoad \/ TSilentLoad \/ TLoadObs \/ TEndStep \/ TEndRun
 TraceSpec == TraceInit /\ [][TraceNext]_tvars
 
 \* diagnosis of the NEXT record against the current state (meaningful where the trace is stuck); the strings are kept
@@ -74,6 +79,8 @@ TraceSpec == TraceInit /\ [][TraceNext]_tvars
 \*   ObsReachFilter:lost-cross-engine-obs   an observation whose sensor and target belong to different engines never arrived
 \*   ObsReachFilter:lost-obs-of-colocated-sensor  every lost observation's sensor has the coordinates of another
 \*                                          sensor that observed the same target at that epoch
+\*   ObsReachFilter:lost-obs-of-sensor-joined-later   every lost observation's sensor joined its engine after step 1
+\*   ObsReachFilter:obs-of-removed-sensor-loaded      observations of a sensor that has left the scenario were delivered
 \*   ObsReachFilter:obs-lost / obs-more-than-once / obs-not-in-db
 \*   NoStaleState:importer-not-queried      agents are imported but the step went on without importEphemerides
 \*   RunContinues:duplicate-obs-row         the run died at an epoch for which an observation row is stored twice
@@ -97,7 +104,9 @@ WhyLoadObs ==
            dup == {o \in cfg.obs : \E i \in DOMAIN seq : o[2] = seq[i][1] /\ Count(seq[i][2], o) > reached[o]}
            \* a lost observation whose sensor shares its coordinates with another sensor that observed the same target
            colo == {o \in lost : \E p \in cfg.obs : p # o /\ p[1] = o[1] /\ p[2] = o[2] /\ cfg.site[p[3]] = cfg.site[o[3]]}
-       IN IF lost # {} THEN (IF \E o \in lost : CrossEngine(o) THEN "ObsReachFilter:lost-cross-engine-obs"
+       IN IF lost # {} /\ \A o \in lost : cfg.born[o[3]] > 1 THEN "ObsReachFilter:lost-obs-of-sensor-joined-later"
+          ELSE IF dup # {} /\ \A o \in dup : o[1] = k /\ o[3] \notin Active(k) THEN "ObsReachFilter:obs-of-removed-sensor-loaded"
+          ELSE IF lost # {} THEN (IF \E o \in lost : CrossEngine(o) THEN "ObsReachFilter:lost-cross-engine-obs"
                              ELSE IF colo = lost THEN "ObsReachFilter:lost-obs-of-colocated-sensor"
                              ELSE "ObsReachFilter:obs-lost")
           ELSE IF dup # {} THEN "ObsReachFilter:obs-more-than-once"
@@ -112,6 +121,11 @@ Why ==
          [] Rec.ev \in {"Open", "EndRun"} ->
               IF ~Rec.schema_unchanged THEN (IF cfg.schema = "minimal" THEN "ImporterReadOnly:tables-created" ELSE "ImporterReadOnly:schema-modified")
               ELSE IF ~Rec.unchanged THEN "ImporterReadOnly:file-modified" ELSE "ok"
+         [] Rec.ev = "Output" ->
+              IF OutRows(Rec.rows) = out /\ Len(Rec.rows) = Cardinality(out) THEN "ok"
+              ELSE IF \E r \in out : r[1] \in cfg.imported /\ r \notin OutRows(Rec.rows)
+                     THEN "OutputRows:imported-agent-rows-at-wrong-epoch"
+                     ELSE "OutputRows:output-rows-differ"
          [] Rec.ev = "Crash" -> IF pc = "imported" /\ \E o \in cfg.dup : o[1] = k THEN "RunContinues:duplicate-obs-row" ELSE "crash"
          [] OTHER -> "ok"
 Accept == PrintT(<<"AT", tid, l, Len(Tr) + 1, Why>>)
